@@ -132,6 +132,40 @@ def case_strategy(draw):
             "default": draw(st.sampled_from([1, 2]))}
 
 
+def enumerate_cases(tier):
+    """comparisons of a byte-ordered packet variable with another packet
+    variable / a map variable / a constant beyond 31 bits (the right side
+    needs a register of its own), and one expression object read twice"""
+    packets = [{"len": 64, "seed": s, "mode": m}
+               for s, m in ((1, "pattern"), (77, "pattern"), (0, "ff"),
+                            (200, "pattern"), (0, "zero"))]
+    for f in "HIQ":
+        for oa in (">", "<", "!", ""):
+            for ob in (">", "<", ""):
+                targets = [{"kind": "var", "name": "p0", "fmt": oa + f,
+                            "off": 16},
+                           {"kind": "var", "name": "p1", "fmt": ob + f,
+                            "off": 32}]
+                ops = []
+                n = 0
+                for c in (">", "<", ">=", "<=", "==", "!="):
+                    ops.append(["cmp", 0, n, c, ["t", 1]])
+                    ops.append(["cmp", 1, n + 1, c, ["t", 0]])
+                    n += 2
+                yield {"form": "class", "G": 48, "targets": targets,
+                       "ops": ops, "inputs": [5], "packets": packets,
+                       "default": 1}
+                ops = [["cmp", 0, 0, ">", ["i", 0]],
+                       ["cmp", 0, 1, "==", ["i", 0]],
+                       ["cmp", 0, 2, "<=", ["i", 1]],
+                       ["twice", 0, 3, 4], ["twice", 1, 5, 6],
+                       ["cmp", 0, 7, ">", 2**31 + 5 if f != "H" else 40000],
+                       ["cmp", 0, 8, "<", 2**32 - 2 if f != "H" else 65000]]
+                yield {"form": "gt", "G": 48, "targets": targets,
+                       "ops": ops, "inputs": [0x3334, 0x33343536],
+                       "packets": packets, "default": 2}
+
+
 def bswap64(v):
     return int.from_bytes((v & (2**64 - 1)).to_bytes(8, "little"), "big")
 
@@ -225,8 +259,17 @@ def run_case(case):
             t = targets[o[1]]
             if o[0] == "read":
                 setattr(e, f"o{o[2]}", get(e, p, t))
+            elif o[0] == "twice":
+                # one expression object, evaluated twice
+                v = get(e, p, t)
+                setattr(e, f"o{o[2]}", v)
+                setattr(e, f"o{o[3]}", v)
             elif o[0] == "cmp":
-                cond = CMP[o[3]](get(e, p, t), o[4])
+                right = o[4]
+                if isinstance(right, list):
+                    right = get(e, p, targets[right[1]]) \
+                        if right[0] == "t" else getattr(e, f"i{right[1]}")
+                cond = CMP[o[3]](get(e, p, t), right)
                 with cond as Else:
                     setattr(e, f"o{o[2]}", 1)
                 with Else:
@@ -281,6 +324,11 @@ def run_case(case):
         elif o[0] == "cmp":
             outs[o[2]] = "Q"
             ns[f"o{o[2]}"] = ns["amap"].globalVar("Q")
+        elif o[0] == "twice":
+            f = targets[o[1]]["fmt"][-1]
+            for k in o[2:4]:
+                outs[k] = "q" if f.islower() else "Q"
+                ns[f"o{k}"] = ns["amap"].globalVar(outs[k])
     for t in targets:
         if t["kind"] == "var":
             ns[t["name"]] = PacketVar(t["off"], t["fmt"])
@@ -353,9 +401,15 @@ def run_case(case):
                     t = targets[o[1]]
                     if o[0] == "read":
                         exp_out[o[2]] = model_read(model, t)
+                    elif o[0] == "twice":
+                        exp_out[o[2]] = exp_out[o[3]] = model_read(model, t)
                     elif o[0] == "cmp":
+                        right = o[4]
+                        if isinstance(right, list):
+                            right = model_read(model, targets[right[1]]) \
+                                if right[0] == "t" else inputs[right[1]]
                         exp_out[o[2]] = 1 if CMP[o[3]](
-                            model_read(model, t), o[4]) else 2
+                            model_read(model, t), right) else 2
                     elif o[0] == "wconst":
                         model_write(model, t, o[2])
                     elif o[0] == "wvar":
@@ -382,8 +436,8 @@ def run_case(case):
                 pos = e.__dict__[f"o{k}"]
                 got = int.from_bytes(out[pos:pos + 8], "little")
                 if got != want & (2**64 - 1):
-                    op = [o for o in ops if o[0] in ("read", "cmp")
-                          and o[2] == k][0]
+                    op = [o for o in ops if o[0] in ("read", "cmp", "twice")
+                          and k in o[2:4 if o[0] == "twice" else 3]][0]
                     t = targets[op[1]]
                     if op[0] == "cmp":
                         return fail(
